@@ -302,6 +302,33 @@ fn obs_colw(c: usize) -> String {
     }
 }
 
+/// the complete (AFTER chip, pad channel) -> (column, row) table of one PWB as the implementation has it for a run
+/// (used by the translator when it cannot interpret the source of that table; not part of the differential)
+fn obs_invpads(run: u32) -> String {
+    use alpha_g_detector::padwing::map::{PwbPadColumn, PwbPadPosition, PwbPadRow};
+    use alpha_g_detector::padwing::{AfterId, PadChannelId};
+    let mut out = Vec::new();
+    for (a, after) in [AfterId::A, AfterId::B, AfterId::C, AfterId::D].into_iter().enumerate() {
+        for ch in 1..=72u16 {
+            let Ok(chan) = PadChannelId::try_from(ch) else { return "err".to_string() };
+            match catch(move || PwbPadPosition::try_new(run, after, chan)) {
+                Some(Ok(p)) => {
+                    // the column / row types convert from an index only: find the index
+                    let col = (0..64usize).find(|&i| PwbPadColumn::try_from(i).ok() == Some(p.column()));
+                    let row = (0..1024usize).find(|&i| PwbPadRow::try_from(i).ok() == Some(p.row()));
+                    match (col, row) {
+                        (Some(c), Some(r)) => out.push(format!("{a}.{ch}.{c}.{r}")),
+                        _ => return "err".to_string(),
+                    }
+                }
+                Some(Err(_)) => return "err".to_string(),
+                None => return "panic".to_string(),
+            }
+        }
+    }
+    format!("ok {}", out.join(" "))
+}
+
 pub fn observe_line(line: &str) -> Option<String> {
     let t: Vec<&str> = line.split(' ').collect();
     let num = |s: &str| s.parse::<u64>().ok();
@@ -310,6 +337,7 @@ pub fn observe_line(line: &str) -> Option<String> {
         ("nmblk", 3) => obs_nmblk(t[1], t[2]),
         ("radix", 3) => obs_radix(num(t[1])? as u32, t[2]),
         ("run", 2) => obs_run(num(t[1])? as u32),
+        ("invpads", 2) => obs_invpads(num(t[1])? as u32),
         ("wpos", 4) => obs_wpos(num(t[1])? as u32, t[2], num(t[3])? as u8),
         ("ppos", 5) => obs_ppos(num(t[1])? as u32, t[2], num(t[3])? as u8, num(t[4])? as u16),
         ("wcol", 2) => obs_wcol(num(t[1])? as usize),
